@@ -37,7 +37,7 @@ Options == { <<f, v>> : f \in RegexFlags, v \in RegexVals }
            \cup OtherOpts \cup { <<"", "">> }
 
 \* the options that change which arithmetic a report does: combined with every profile class in the quick tier as well
-ShapeOpts == { <<"trim_path", "/a::/b">>, <<"mean", "true">>, <<"call_tree", "true">>, <<"drop_negative", "true">>, <<"noinlines", "true">>, <<"lines", "true">>, <<"addresses", "true">>, <<"cum", "true">> }
+ShapeOpts == { <<"trim_path", "/a::/b">>, <<"call_tree+nodecount", "1">>, <<"call_tree+nodecount", "2">>, <<"noinlines+hide", "f">>, <<"mean", "true">>, <<"call_tree", "true">>, <<"drop_negative", "true">>, <<"noinlines", "true">>, <<"lines", "true">>, <<"addresses", "true">>, <<"cum", "true">> }
 
 VARIABLES pc, prof, cmd, opt
 vars == <<pc, prof, cmd, opt>>
